@@ -436,6 +436,26 @@ Section Tickets.
                         (c_tms c2) (c_reqems c2)).
 End Tickets.
 
+(* ------------------------------------------------------------------ TLS 1.3 tickets: the sealed session parameters
+   tls13Resume.c: tls13GetCurrSessParams + tls13NewTicket (lifetime, issue time sealed into the ticket) and
+   tls13ValidateSessionParams 675-725 (server side, after the ticket was decrypted; fix C14-5 added the lifetime
+   test).  Only the parameter handling is modelled: AES-GCM sealing, PSK derivation and binders are not. *)
+Record t13params := mkP { p_maj : Z; p_min : Z; p_cipher : Z; p_life : Z (* seconds *); p_stamp : Z (* ms *) }.
+
+(* tls13WriteNewSessionTicket (tls13Encode.c 1415-1490): ticketLifetime = TLS_1_3_TICKET_LIFETIME, timestamp = now *)
+Definition tls13_issue (c : conn) (suite : Z) (st : state) : t13params :=
+  mkP (c_maj c) (c_min c) suite k_TLS_1_3_TICKET_LIFETIME (s_now st).
+
+(* tls13ValidateSessionParams: (return code, ssl->err) *)
+Definition tls13_validate (c : conn) (suite : Z) (p : t13params) (st : state) : Z * Z :=
+  if negb ((p_maj p =? c_maj c) && (p_min p =? c_min c)) then (k_MATRIXSSL_ERROR, k_SSL_ALERT_HANDSHAKE_FAILURE)
+  else if negb (p_cipher p =? suite) then (k_MATRIXSSL_ERROR, k_SSL_ALERT_HANDSHAKE_FAILURE)
+  else if c_server c then
+    let age := diff_msecs (p_stamp p) (s_now st) in
+    if (age <? 0) || ((age / 1000) mod 4294967296 >? p_life p) then (k_MATRIXSSL_ERROR, k_SSL_ALERT_HANDSHAKE_FAILURE)
+    else (k_PS_SUCCESS, k_SSL_ALERT_NONE)
+  else (k_PS_SUCCESS, k_SSL_ALERT_NONE).
+
 (* ------------------------------------------------------------------ histories over many connections *)
 Inductive op :=
 | ONew (k : nat) (c : conn)              (* a fresh connection object takes the place of connection k *)
